@@ -539,13 +539,25 @@ mod bits {
 		fn from_val(v: &Val) -> Self {
 			match v {
 				Val::Bits(b) => {
-					// leave stale set bits in the storage beyond `len`: they must never matter
-					let mut v: Self = b.iter().copied().collect();
-					let n = v.len();
+					// Two vectors with the same bits must be indistinguishable to the codec, whatever their layout:
+					// half of the values (chosen by their content) start at a non-zero head offset inside the first
+					// storage word — including vectors lying strictly inside one word — and all keep stale set bits
+					// in the storage beyond `len`.
+					let n = b.len();
+					let width = size_of::<S>() * 8;
+					let ones = b.iter().filter(|x| **x).count();
+					let head = if (n + ones) % 2 == 0 { 0 } else { 1 + (n * 7 + ones * 3) % (width - 1) };
+					let mut v: Self = if head == 0 {
+						b.iter().copied().collect()
+					} else {
+						let padded: Self = std::iter::repeat(true).take(head).chain(b.iter().copied()).collect();
+						Self::from_bitslice(&padded[head..])
+					};
 					for _ in 0..5 {
 						v.push(true);
 					}
 					v.truncate(n);
+					debug_assert_eq!(v.len(), n);
 					v
 				},
 				o => panic!("model: bits expected, got {}", o.brief(60)),
